@@ -1,1 +1,75 @@
-fn main() { println!("{}", gamedig::verif_hook::is_installed()); }
+mod alloc;
+mod c17;
+mod transport;
+mod util;
+
+use serde_json::{json, Value};
+use util::*;
+
+#[global_allocator]
+static GLOBAL: alloc::Counting = alloc::Counting;
+
+fn arg<'a>(args: &'a [String], name: &str) -> Option<&'a str> {
+    args.iter().position(|a| a == name).and_then(|i| args.get(i + 1)).map(|s| s.as_str())
+}
+fn arg_u64(args: &[String], name: &str, default: u64) -> u64 {
+    arg(args, name).map(|s| s.parse().expect("numeric argument")).unwrap_or(default)
+}
+
+fn main() {
+    install_panic_hook();
+    let args: Vec<String> = std::env::args().collect();
+    let cmd = args.get(1).map(|s| s.as_str()).unwrap_or("");
+    let seed = arg_u64(&args, "--seed", 1);
+    let mut rep = Report::new();
+    match cmd {
+        "c17-replay-buffer" => c17::replay_buffer(&read_ndjson(arg(&args, "--in").unwrap()), &mut rep),
+        "c17-replay-varint" => c17::replay_varint(&read_ndjson(arg(&args, "--in").unwrap()), &mut rep),
+        "c17-sweep" => {
+            let lo = arg_u64(&args, "--lo", 0);
+            let hi = arg_u64(&args, "--hi", 1 << 32);
+            let threads = arg_u64(&args, "--threads", 8);
+            let step = (hi - lo + threads - 1) / threads;
+            let hs: Vec<_> = (0 .. threads)
+                .map(|t| {
+                    std::thread::spawn(move || {
+                        let mut r = Report::new();
+                        let a = lo + t * step;
+                        let b = (a + step).min(hi);
+                        if a < b {
+                            c17::sweep_varint(a, b, &mut r);
+                        }
+                        r
+                    })
+                })
+                .collect();
+            for h in hs {
+                let r = h.join().expect("sweep thread");
+                rep.evaluations += r.evaluations;
+                for v in r.violations {
+                    rep.violation(v["property"].as_str().unwrap(), v["sig"].as_str().unwrap(), v["replay"].clone());
+                }
+            }
+            rep.samples.push(json!({"sweep":[lo,hi]}));
+        }
+        "c17-misc" => {
+            c17::utils_grid(&mut rep);
+            c17::random_strings(seed, arg_u64(&args, "--n", 20000) as usize, &mut rep);
+        }
+        "c17-trace" => {
+            let mut out: Vec<Value> = Vec::new();
+            c17::trace_buffer(seed, arg_u64(&args, "--runs", 2000) as usize, &mut out, &mut rep);
+            rep.extra.insert("events".into(), json!(out.len()));
+            write_ndjson(arg(&args, "--out-trace").unwrap(), &out);
+        }
+        _ => {
+            eprintln!("unknown command {cmd:?}");
+            std::process::exit(2);
+        }
+    }
+    let j = rep.to_json();
+    match arg(&args, "--report") {
+        Some(p) => std::fs::write(p, serde_json::to_string(&j).unwrap()).expect("write report"),
+        None => println!("{}", j),
+    }
+}
